@@ -212,3 +212,50 @@ func VH_C15_stateloop_election() {
 	}
 	vReach("end")
 }
+
+//verif:check C15,C16 stubs=rt,timers,valuefile,abslog onblock=violation reach=request-sent,stepped-down,stale-reply-offered,closed,end desc="real stateLoop: a transfer whose timeout-now request is in flight is completed by something else (the leader sees a higher term and steps down), then the request's late reply arrives: the node must ignore it and keep running (no nil dereference in the stale handler), the transfer task completes exactly once" bounds="2 voters, follower caught up; event script: transfer, newTerm from a replication, late timeout-now reply (error or any result), a task, shutdown"
+func VH_C15_stateloop_stale_transfer_reply() {
+	r := vLoopNode(Leader)
+	tr := transferLdr{task: newTask(), target: 0, timeout: 1000}
+	probe := inspect{task: newTask(), fn: func(r *Raft) {}}
+	var inflight chan rpcResponse
+	late := rpcResponse{response: &timeoutNowResp{resp{term: 1, result: rpcResult(vU8("late.result"))}}, from: 2}
+	if vBool("late.err") {
+		late.err = vIOError{"dial"}
+	}
+	step := 0
+	vSetIdleHook(func() {
+		vDrainFSM(r)
+		switch step {
+		case 0:
+			r.ldr.repls[2].status.matchIndex = r.lastLogIndex
+			vOffer(r.taskCh, tr)
+		case 1:
+			inflight = r.ldr.transfer.respCh
+			vAssert(inflight != nil && vNumSpawned() >= 2, "timeout-now-request-in-flight")
+			vReach("request-sent")
+			// a replication reports a higher term: the leader steps down, which completes the transfer task
+			vOffer(r.ldr.replUpdateCh, replUpdate{status: &r.ldr.repls[2].status, update: newTerm{5}})
+		case 2:
+			vAssert(r.state == Follower && r.term == 5, "stepped-down-on-higher-term")
+			vAssert(isClosed(tr.Done()) && tr.Err() == nil, "transfer-completed-successfully-by-term-advance")
+			vReach("stepped-down")
+			// the goroutine that sent the timeout-now request finally delivers its result
+			inflight <- late
+			vReach("stale-reply-offered")
+			vOffer(r.taskCh, probe)
+		case 3:
+			vAssert(isClosed(probe.Done()), "node-still-serves-tasks")
+			r.doClose(ErrServerClosed)
+		default:
+			if !r.isClosed() {
+				r.doClose(ErrServerClosed)
+			}
+		}
+		step++
+	})
+	r.stateLoop()
+	vReach("closed")
+	vAssert(step >= 4, "script-completed")
+	vReach("end")
+}
